@@ -1,6 +1,7 @@
 package main
 
 import (
+	"golang.org/x/tools/go/ssa"
 	"fmt"
 	"go/ast"
 	"go/constant"
@@ -12,6 +13,7 @@ import (
 
 // Env evaluates contract expressions to SMT terms in a pair of states.
 type Env struct {
+	locals bool // identifiers may resolve to locals of the function under translation (topEnv only)
 	tr       *Trans
 	pre      *State
 	post     *State
@@ -282,6 +284,17 @@ func (env *Env) ident(name string) Val {
 	}
 	if gv, ok := tr.g.specs.Ghosts[name]; ok {
 		return env.ghost(gv)
+	}
+	if env.locals {
+		// a local variable of the function under translation, by its source name (never visible to callee contracts)
+		if v, ok := tr.nameAt(name); ok {
+			if x, done := tr.vals[v]; done {
+				return x
+			}
+			if c, isConst := v.(*ssa.Const); isConst {
+				return tr.constVal(c)
+			}
+		}
 	}
 	if env.pkg != nil {
 		if obj := env.pkg.Scope().Lookup(name); obj != nil {
